@@ -15,6 +15,10 @@ NA = {
  "C19": "strategy applicability is a pure function of the basis",
 }
 CHECKS = {
+ "C09": dict(engine="histsim", category="exploration", design_ref="DESIGN.md section 3 / C09",
+   text="Seeded search over histories of generator use and of the shared standardisation memo: Perm.of_length / up_to_length / first and MeshPatt.of_length generators are live tasks advanced in seeded interleavings and compared item by item with an independent recursive lexicographic enumeration; rank / unrank (with and without length) on seeded and boundary ranks against a Lehmer-code reference, mutual consistency with < ; standardisation of sequences with repetitions over ints, floats, bools, Fractions, strings and tuples - including equal-but-distinct memo keys - before and after the lru_cache is cleared or flooded past its capacity; every notation round trip and the three documented error cases of the validated constructor; mesh rank / unrank bit order.",
+   note="Trusted: ref/order.py (cross-checked against itertools.permutations at start-up), ref/patterns.std. Lengths <= 6-7 for generators, ranks < 50000, str round trip for length <= 10, integer notation where no leading zero is lost.",
+   technique="deterministic cooperative simulation of generator interleavings and memo histories (clear / eviction / equal-but-distinct keys), seeded search, independent order / rank reference"),
  "C13": dict(engine="histsim", category="exploration", design_ref="DESIGN.md section 3 / C13",
    text="Seeded search over call histories on the process-wide memo tables: a pool of bases over a small shared universe of permutations (including rotated / inverted images of each other) is queried through every entry point - permutils functions, Av methods, the poly / insenc CLI functions in-process - with the basis delivered as list, tuple, set, frozenset, Basis, dict view, deque, generator, one-shot iterator, map or reversed object, permuted and with repetitions, and on its eight symmetric images (computed by the reference, not by permuta), with the memo tables flushed as a fault; every verdict is compared with the structure theorems re-implemented by split search, and the verdicts are cross-checked against real enumeration through Av (Erdos-Szekeres bound, no empty level, Fibonacci lower bound).",
    note="Trusted: ref/growth.py (ten classes by brute-force split search, pinned by 2^n-n, 2^(n-1), Fibonacci counts and by the inverse relation between vertical and horizontal classes). Basis permutations of length <= 5 (6 in thorough), enumeration to length 6-7.",
